@@ -511,7 +511,9 @@ def berOp (op : String) (j : Json) : Except String Json := do
     | .error e => pure (berErrToJson e)
   | "ber.val.enc" => pure (optBytesJ (Ber.encodeVal (← valOfJson (← j.getObjVal? "val"))))
   | "ber.tree" =>
-    match Ber.decodeTree (← bytesOfJson (← j.getObjVal? "data")) (← getNat j "fuel") (← getNat j "depth") with
+    let forced := (j.getObjValAs? Bool "forced").toOption.getD false
+    let dec := if forced then Ber.decodeTreeForced else Ber.decodeTree
+    match dec (← bytesOfJson (← j.getObjVal? "data")) (← getNat j "fuel") (← getNat j "depth") with
     | .ok t => pure (treeToJson t)
     | .error e => pure (berErrToJson e)
   | "ber.pdu.enc" =>
